@@ -17,6 +17,7 @@ FORMULAS = [
     "{r} | a", "a <= b", "[a] = 99999999999999999999", "[a] > 9223372036854775807", "-(a b c", "", "\"only a comment\"",
     "(", "a &", "[a, b", "exists # a", "exists a #", "a \"c\" b", "٣", "a\x00b", "[a,] < 0", "mu X # (exists X # X)",
     "[a, b] < [a]", "[[a] = 1, b] >= 1", "a nand b nor c", "all a # [a, b] = [b]", "if [a,b]=1 then {x} else -c",
+    "ééé & b", "größe | länge", "变量 => b", "exists é # (é & ñandú) | ü",
     "(gfp X # X & a) & X", "X & (gfp X # X & a)", "(exists x # (x & a)) & (b | x)", "nu X # ((mu X # (X | a)) & X)", "if a then b else c",
 ]
 ORDERINGS = [None, "a", "b a", "x a", "c b a", "a a b", "z a b", ", ; a", "", "\"c\" a"]
@@ -131,8 +132,8 @@ def replay_case(repo, case):
 # ------------------------------------------------------------------ C11, CLI half: orderings change the shape, not the meaning
 
 ORDER_FORMULAS = ["a & b", "a | -b & c", "a ^ b ^ c", "[a, b, c] = 1", "exists b # (a & b) | c", "forall a # a | b", "if a then b else c",
-                  "lfp X # a | (X & b)", "[a, b] <= [c]", "c => (b => a)", "-(a <=> c) | b", "a"]
-ORDER_FILES = ["a b c", "c b a", "b", "c a", "x a y b z c", "a a b", "c, b; a", "z", "b \"comment\" a", "X c"]
+                  "lfp X # a | (X & b)", "[a, b] <= [c]", "c => (b => a)", "-(a <=> c) | b", "a", "x' & (y | x)", "(a' ^ a) | b'"]
+ORDER_FILES = ["a b c", "c b a", "b", "c a", "x a y b z c", "a a b", "c, b; a", "z", "b \"comment\" a", "X c", "x' y x", "y x'", "b' a' a", "_x x1 x' x"]
 
 
 def _table(stdout):
@@ -304,6 +305,25 @@ def sweep_model(repo, budget, seed, binary=None):
                 covered = set(_expand(names, true_rows[0][:-1]))
                 if not covered <= sat:
                     return {"mode": "climodel", "case": case, "expected": "every assignment the model row covers satisfies the formula", "actual": mod[1][:400]}, checked, ""
+            # `-m -v`: the listing of the model = one line (none for an unsatisfiable formula) whose assignments satisfy the formula
+            checked += 1
+            case = json.dumps({"formula": f, "ordering": None, "options": ["-m", "-v"], "channel": "model"})
+            mv = _run(binary, ["-m", "-v", "--evaluate=" + f], tmp)
+            if mv is None:
+                continue
+            if mv[0] == 101 or "panicked at" in mv[2]:
+                return {"mode": "climodel", "case": case, "expected": "a listing", "actual": "panic: " + mv[2][:300]}, checked, ""
+            lines = [l.strip() for l in mv[1].split("\n") if l.strip().endswith(";")]
+            if len(lines) != (1 if sat else 0):
+                return {"mode": "climodel", "case": case, "expected": f"{1 if sat else 0} line(s): the model of the formula", "actual": mv[1][:400]}, checked, ""
+            for line in lines:
+                items = [x.strip() for x in line[:-1].split(",") if x.strip()]
+                tn = [x for x in items if not x.endswith("*")]
+                an = [x[:-1] for x in items if x.endswith("*")]
+                for bits in itertools.product([False, True], repeat=len(an)):
+                    a = frozenset(tn) | frozenset(n for n, b in zip(an, bits) if b)
+                    if a not in sat:
+                        return {"mode": "climodel", "case": case, "expected": "every assignment the listed model covers satisfies the formula", "actual": mv[1][:400]}, checked, ""
     return None, checked, ""
 
 
